@@ -71,6 +71,10 @@ pub fn get_cont(c: u8) -> Option<Rc<Cont>> {
     w(|w| w.conts.get(c as usize).and_then(|e| e.c.clone()))
 }
 
+fn storage_addr_of(c: &Cont) -> usize {
+    with_cont!(c, cv, _wr => cv.verif_storage_addr())
+}
+
 fn peek_cont_ptr(c: &Cont) -> usize {
     with_cont!(c, cv, _wr => cv.verif_ptr() as usize)
 }
@@ -189,6 +193,22 @@ fn make_value<T: PtrT>(ctx: Ctx, v: V) -> T {
             }
         }
     }
+}
+
+/// Remembers that the allocation at `addr` is (about to be) referenced by container `c`.
+fn note_stored(c: u8, addr: usize) {
+    if addr == 0 {
+        return;
+    }
+    w(|w| {
+        let weak = w.conts.get(c as usize).map(|e| e.kind == CKind::WD as u8).unwrap_or(false);
+        let e = w.addr_seen_in.entry(addr).or_insert((false, false));
+        if weak {
+            e.1 = true;
+        } else {
+            e.0 = true;
+        }
+    });
 }
 
 pub fn next_payload() -> u64 {
@@ -414,6 +434,7 @@ fn op_store(ctx: Ctx, c: u8, v: V) {
     fn go<T: PtrT, S: arc_swap::strategy::Strategy<T>>(ctx: Ctx, c: u8, cv: &ArcSwapAny<T, S>, v: V) {
         let val: T = make_value(ctx, v);
         let arg = (val.peek_uid(), val.addr());
+        note_stored(c, arg.1);
         let r = rec_begin();
         let res = guarded("store", move || cv.store(val));
         // A panic out of store can only come from the destructor of the replaced value, i.e.
@@ -433,6 +454,7 @@ fn op_swap(ctx: Ctx, c: u8, v: V, h: u8) {
     fn go<T: PtrT, S: arc_swap::strategy::Strategy<T>>(ctx: Ctx, c: u8, cv: &ArcSwapAny<T, S>, v: V, h: u8) {
         let val: T = make_value(ctx, v);
         let arg = (val.peek_uid(), val.addr());
+        note_stored(c, arg.1);
         let r = rec_begin();
         let res = guarded("swap", move || cv.swap(val));
         match res {
@@ -471,6 +493,7 @@ fn op_cas(ctx: Ctx, c: u8, cur: Cur, form: u8, v: V, g: u8) {
     {
         let new: T = make_value(ctx, v);
         let arg = (new.peek_uid(), new.addr());
+        note_stored(c, arg.1);
         // Resolve `current`.
         enum C<T: PtrT, S: arc_swap::strategy::Strategy<T>> {
             Val(T),
@@ -602,6 +625,7 @@ fn op_cas(ctx: Ctx, c: u8, cur: Cur, form: u8, v: V, g: u8) {
         Cont::OF(cv) => go(ctx, c, cv, cur, form, v, &|g| if let AnyGuard::OF(x) = g { Ok(x) } else { Err(g) }, &AnyGuard::OF),
         Cont::BD(cv) => go(ctx, c, cv, cur, form, v, &|g| if let AnyGuard::BD(x) = g { Ok(x) } else { Err(g) }, &AnyGuard::BD),
         Cont::BF(cv) => go(ctx, c, cv, cur, form, v, &|g| if let AnyGuard::BF(x) = g { Ok(x) } else { Err(g) }, &AnyGuard::BF),
+        Cont::WD(cv) => go(ctx, c, cv, cur, form, v, &|g| if let AnyGuard::WD(x) = g { Ok(x) } else { Err(g) }, &AnyGuard::WD),
     };
     if let Some(e) = out {
         w(|w| w.guards[gslot(ctx, g)] = Some(e));
@@ -645,6 +669,7 @@ fn op_rcu(ctx: Ctx, c: u8, spec: RcuSpec, h: u8) {
                     // force our own compare-and-swap to fail
                     let x: T = T::fresh(next_payload());
                     let xa = (x.peek_uid(), x.addr());
+                    note_stored(c, xa.1);
                     let rr = rec_begin();
                     // The store takes effect at its exchange; a panic can only come afterwards
                     // (destructor of the replaced value), so it is recorded either way.
@@ -660,6 +685,7 @@ fn op_rcu(ctx: Ctx, c: u8, spec: RcuSpec, h: u8) {
                 let _ = in_val;
                 let new = T::fresh(next_payload());
                 last_out = (new.peek_uid(), new.addr());
+                note_stored(c, last_out.1);
                 produced.push(last_out.0);
                 new
             })
@@ -772,6 +798,16 @@ fn finish_cont(ctx: Ctx, c: u8, rc: Rc<Cont>, into_inner: Option<u8>) {
     if let Some(h) = into_inner {
         op_drop_handle(ctx, h);
     }
+    // the container has moved out of the table: remember where its storage lives now
+    let (st_addr, st_kind) = (storage_addr_of(&cont), w(|w| w.conts[c as usize].kind));
+    let me_tid = rt::current();
+    w(|w| {
+        w.inflight_storages.push((st_addr, st_kind));
+        if w.dropping_kind.len() <= me_tid {
+            w.dropping_kind.resize(me_tid + 1, None);
+        }
+        w.dropping_kind[me_tid] = Some(st_kind);
+    });
     rt::op_begin(if into_inner.is_some() { OP_INTO_INNER } else { OP_DROP_CONT });
     let r = rec_begin();
     match into_inner {
@@ -788,6 +824,11 @@ fn finish_cont(ctx: Ctx, c: u8, rc: Rc<Cont>, into_inner: Option<u8>) {
             rec_end(ctx, r, c, CallKind::DropCont, (0, 0), 0, (0, 0), true);
         }
     }
+    w(|w| {
+        if let Some(k) = w.dropping_kind.get_mut(me_tid) {
+            *k = None;
+        }
+    });
     rt::op_end();
 }
 
@@ -1040,6 +1081,10 @@ fn make_cont(kind: CKind, init: HVal) -> Cont {
         CKind::OF => Cont::OF(ArcSwapAny::new(o(init))),
         CKind::BD => Cont::BD(ArcSwapAny::new(b(init))),
         CKind::BF => Cont::BF(ArcSwapAny::new(b(init))),
+        CKind::WD => Cont::WD(ArcSwapAny::new(match WA::from_h(init) {
+            Ok(x) => x,
+            Err(_) => WA::dangling(),
+        })),
     }
 }
 
@@ -1132,6 +1177,10 @@ pub fn main_thread() {
                 }
             }
             Init::Null => HVal::A(None),
+            Init::WeakOf(j) => match inits.get(j as usize) {
+                Some(HVal::A(Some(x))) => HVal::W(x.downgrade()),
+                _ => HVal::W(WA::dangling()),
+            },
             Init::SameAs(j) => match inits.get(j as usize) {
                 Some(h) if cs.kind.pointee() == 1 && matches!(h, HVal::A(_)) => h.clone_val(),
                 Some(h) if cs.kind.pointee() == 2 && matches!(h, HVal::B(_)) => h.clone_val(),
@@ -1157,8 +1206,16 @@ pub fn main_thread() {
         let cont = make_cont(cs.kind, hv);
         // make_cont may have substituted a fresh value on kind mismatch
         let a2 = peek_cont_ptr(&cont);
-        let u2 = if a2 == a { u } else { arena::live_uid_at(a2).unwrap_or(0) };
+        let u2 = if a2 == a { u } else { arena::slot_at(a2).map(|x| x.1).unwrap_or(0) };
         w(|w| {
+            if a2 != 0 {
+                let e = w.addr_seen_in.entry(a2).or_insert((false, false));
+                if cs.kind == CKind::WD {
+                    e.1 = true;
+                } else {
+                    e.0 = true;
+                }
+            }
             w.conts.push(ContEntry {
                 c: Some(Rc::new(cont)),
                 shares: all_shares,
@@ -1283,11 +1340,17 @@ fn final_cleanup(ctx: Ctx, order: u8) {
 /// After everything was dropped: every object destroyed exactly once, every slot empty.
 fn final_state_check() {
     for (addr, st, uid, strong) in arena::all_slots() {
-        let _ = addr;
         if st == arena::ST_LIVE {
             rt::fail(
                 "leak",
                 format!("object uid={} still alive (strong={}) after every owner was dropped", uid, strong),
+            );
+            return;
+        }
+        if st == arena::ST_DEAD {
+            rt::fail(
+                "leak",
+                format!("allocation of uid={} still held by a weak count of {} after every owner was dropped", uid, arena::weak_at(addr)),
             );
             return;
         }
@@ -1351,9 +1414,11 @@ fn on_destroy(uid: u32) {
     }
     let addr = arena::obj_info(uid).map(|o| o.addr).unwrap_or(0);
     let owner = w(|w| {
+        // (weak containers, weak handles and guards on weak pointers do not keep a value alive)
+        let weak_cont = |w: &World, c: u8| w.conts.get(c as usize).map(|e| e.kind == CKind::WD as u8).unwrap_or(false);
         for e in w.conts.iter() {
             if let Some(c) = &e.c {
-                if peek_cont_ptr(c) == addr {
+                if e.kind != CKind::WD as u8 && peek_cont_ptr(c) == addr {
                     return Some("a container stores it".to_string());
                 }
             }
@@ -1362,18 +1427,18 @@ fn on_destroy(uid: u32) {
             return Some("a live guard (lent to compare_and_swap) denotes it".to_string());
         }
         for h in w.handles.iter().flatten() {
-            if h.peek_uid() == uid {
+            if !h.is_weak() && h.peek_uid() == uid {
                 return Some("an owned handle refers to it".to_string());
             }
         }
         for g in w.guards.iter().flatten().chain(w.tmp_guards.iter()) {
-            if g.uid == uid {
+            if g.uid == uid && !weak_cont(w, g.cont) {
                 return Some("a live guard denotes it".to_string());
             }
         }
         for m in w.mail.iter() {
             for g in m.queue.iter() {
-                if g.uid == uid {
+                if g.uid == uid && !weak_cont(w, g.cont) {
                     return Some("a guard in transit to another thread denotes it".to_string());
                 }
             }
@@ -1421,34 +1486,55 @@ pub fn run_ledger(when: &str) {
         }
     }
     let _ = any_debt;
-    // owners per address: (containers, handles, guards)
+    // owners per address: (containers, handles, guards), strong and weak separately
     let mut own: BTreeMap<usize, (u32, u32, u32)> = BTreeMap::new();
+    let mut wown: BTreeMap<usize, (u32, u32, u32)> = BTreeMap::new();
     let mut guard_uid_mismatch: Option<String> = None;
     let mut null_guards: u32 = 0;
     w(|w| {
         w.ledger_checks += 1;
+        let weak_kind = CKind::WD as u8;
         for e in w.conts.iter() {
             if let Some(c) = &e.c {
                 let p = peek_cont_ptr(c);
                 if p != 0 {
-                    own.entry(p).or_default().0 += 1;
+                    if e.kind == weak_kind {
+                        wown.entry(p).or_default().0 += 1;
+                    } else {
+                        own.entry(p).or_default().0 += 1;
+                    }
                 }
             }
         }
         for h in w.handles.iter().flatten() {
             let a = h.addr();
             if a != 0 {
-                own.entry(a).or_default().1 += 1;
+                if h.is_weak() {
+                    wown.entry(a).or_default().1 += 1;
+                } else {
+                    own.entry(a).or_default().1 += 1;
+                }
             }
         }
+        let kinds: Vec<u8> = w.conts.iter().map(|e| e.kind).collect();
         let mut note_g = |g: &GEntry| {
             if g.addr == 0 {
                 null_guards += 1;
             }
             if g.addr != 0 {
-                own.entry(g.addr).or_default().2 += 1;
+                let weak = kinds.get(g.cont as usize).copied() == Some(weak_kind);
+                if weak {
+                    wown.entry(g.addr).or_default().2 += 1;
+                } else {
+                    own.entry(g.addr).or_default().2 += 1;
+                }
                 if let Some((st, uid, _)) = arena::slot_at(g.addr) {
-                    if st != arena::ST_LIVE || uid != g.uid {
+                    let bad = if weak {
+                        st == arena::ST_GONE || st == arena::ST_FREE || uid != g.uid
+                    } else {
+                        st != arena::ST_LIVE || uid != g.uid
+                    };
+                    if bad {
                         guard_uid_mismatch = Some(format!(
                             "a live guard on uid={} exists but that object is {} (address now uid={})",
                             g.uid,
@@ -1478,25 +1564,45 @@ pub fn run_ledger(when: &str) {
     }
     for (addr, st, uid, strong) in arena::all_slots() {
         let (c, h, g) = own.get(&addr).copied().unwrap_or((0, 0, 0));
+        let (wc, wh, wg) = wown.get(&addr).copied().unwrap_or((0, 0, 0));
         let d = debts.get(&addr).copied().unwrap_or(0);
+        let weak = arena::weak_at(addr);
+        let detail = format!(
+            "uid={} strong={} weak={} | strong owners: containers={} handles={} guards={} | weak owners: containers={} handles={} guards={} | debts={}",
+            uid, strong, weak, c, h, g, wc, wh, wg, d
+        );
         if st == arena::ST_LIVE {
-            if d > g {
+            if d > g + wg {
                 rt::fail(
                     "ledger",
-                    format!("{}: {} debt slot(s) hold uid={} but only {} guard(s) on it exist", when, d, uid, g),
+                    format!("{}: {} debt slot(s) hold uid={} but only {} guard(s) on it exist", when, d, uid, g + wg),
                 );
                 return;
             }
-            let expected = (c + h + g - d) as usize;
-            if strong != expected {
-                let kind = if strong > expected { "leak" } else { "double-release" };
-                rt::fail(
-                    kind,
-                    format!(
-                        "{}: uid={} strong={} but owners: containers={} handles={} guards={} debts={} (expected {})",
-                        when, uid, strong, c, h, g, d, expected
-                    ),
-                );
+            // std convention: the strong references together hold one weak reference
+            let weakx = weak.wrapping_sub(1);
+            let total_expected = (c + h + g + wc + wh + wg - d) as usize;
+            let s_lo = (c + h) as usize;
+            let s_hi = (c + h + g) as usize;
+            let w_lo = (wc + wh) as usize;
+            let w_hi = (wc + wh + wg) as usize;
+            if wc + wh + wg == 0 && weakx == 0 {
+                // no weak pointers involved: the exact equation of the strong count
+                let expected = (c + h + g - d) as usize;
+                if strong != expected {
+                    let kind = if strong > expected { "leak" } else { "double-release" };
+                    rt::fail(
+                        kind,
+                        format!(
+                            "{}: uid={} strong={} but owners: containers={} handles={} guards={} debts={} (expected {})",
+                            when, uid, strong, c, h, g, d, expected
+                        ),
+                    );
+                    return;
+                }
+            } else if strong < s_lo || strong > s_hi || weakx < w_lo || weakx > w_hi || strong + weakx != total_expected {
+                let kind = if strong + weakx > total_expected || weakx > w_hi || strong > s_hi { "leak" } else { "double-release" };
+                rt::fail(kind, format!("{}: strong/weak counts do not match the owners: {}", when, detail));
                 return;
             }
         } else if st == arena::ST_DEAD {
@@ -1507,11 +1613,27 @@ pub fn run_ledger(when: &str) {
                 );
                 return;
             }
-            if d > 0 {
+            if d > wg {
                 rt::fail(
                     "ledger",
                     format!("{}: a debt slot still refers to destroyed object uid={}", when, uid),
                 );
+                return;
+            }
+            // the value is gone, the allocation is kept by weak references only
+            let expected = (wc + wh + wg - d) as usize;
+            if weak != expected {
+                let kind = if weak > expected { "leak" } else { "double-release" };
+                rt::fail(kind, format!("{}: weak count of a destroyed value does not match its weak owners: {}", when, detail));
+                return;
+            }
+        } else if st == arena::ST_GONE {
+            if c + h + g + wc + wh + wg > 0 {
+                rt::fail("uaf", format!("{}: freed allocation still has owners: {}", when, detail));
+                return;
+            }
+            if d > 0 {
+                rt::fail("ledger", format!("{}: a debt slot still refers to the freed allocation of uid={}", when, uid));
                 return;
             }
         }
@@ -1577,8 +1699,10 @@ pub fn event_hook(id: u32, arg: usize) {
         w(|w| {
             if w.payall_depth.len() <= me {
                 w.payall_depth.resize(me + 1, 0);
+                w.payall_ptr.resize(me + 1, 0);
             }
             w.payall_depth[me] += 1;
+            w.payall_ptr[me] = arg;
         });
     } else if id == probes::PAYALL_EXIT {
         w(|w| {
@@ -1593,6 +1717,41 @@ pub fn event_hook(id: u32, arg: usize) {
         w(|w| {
             let slot = w.last_paid_slot;
             w.paid_by_storage.insert(slot, arg);
+            // Is the payer a writer of a weak container paying on an allocation that strong
+            // guards borrow (or the other way round)? Debts are keyed by the raw pointer only.
+            let p = w.payall_ptr.get(me).copied().unwrap_or(0);
+            let weak_kind = CKind::WD as u8;
+            let payer_weak = w
+                .conts
+                .iter()
+                .find(|e| e.c.as_ref().map(|c| storage_addr_of(c) == arg).unwrap_or(false))
+                .map(|e| e.kind == weak_kind)
+                .or_else(|| w.inflight_storages.iter().find(|(a, _)| *a == arg).map(|(_, k)| *k == weak_kind))
+                .or_else(|| w.dropping_kind.get(me).copied().flatten().map(|k| k == weak_kind));
+            if let (Some(pw), true) = (payer_weak, p != 0) {
+                let kinds: Vec<u8> = w.conts.iter().map(|e| e.kind).collect();
+                let other = w
+                    .guards
+                    .iter()
+                    .flatten()
+                    .chain(w.tmp_guards.iter())
+                    .chain(w.mail.iter().flat_map(|m| m.queue.iter()))
+                    .any(|g| g.addr == p && (kinds.get(g.cont as usize).copied() == Some(weak_kind)) != pw);
+                // ... or a container of the other kind stores a pointer to the same allocation
+                // (its readers may be borrowing it right now)
+                let other_cont = w
+                    .conts
+                    .iter()
+                    .any(|e| (e.kind == weak_kind) != pw && e.c.as_ref().map(|c| peek_cont_ptr(c) == p).unwrap_or(false));
+                // ... or the allocation has been referenced by a container of the other kind at all
+                // (guards taken from it may be in flight inside an operation)
+                let seen_other = w.addr_seen_in.get(&p).map(|(s, wk)| if pw { *s } else { *wk }).unwrap_or(false);
+                if other || other_cont || seen_other {
+                    crate::marks::mark(
+                        "cross-kind-payment: a writer of a weak (strong) container paid a debt on an allocation that guards of strong (weak) pointers borrow; debts are keyed by the raw pointer only".to_string(),
+                    );
+                }
+            }
         });
     } else if id == probes::FAST_CHANGED_PAID || id == probes::FB_HELPED_AND_PAID {
         // the reader found its (unconfirmed) debt in slot `arg` already paid; its storage follows
